@@ -81,6 +81,8 @@ def instances(tier, seed):
         for method, intg, dae in (('MS', 'rk', False), ('SS', 'rk', False), ('DC', None, False), ('DC', None, True), ('MS', 'expl_euler', False), ('SS', 'expl_euler', False)):
             N = [2, 3][n % 2] if tier == 'quick' else rng.choice([1, 2, 3])
             M = [2, 1][n % 2] if tier == 'quick' else rng.choice([1, 2])
+            if dae:
+                M = 2       # algebraic values on the integrator grid differ per sub-step only for M>1
             g = grids[n % len(grids)]
             if g == 'fun':
                 g = fam.G_FUN(N)
@@ -268,6 +270,19 @@ def run(item):
             return tr.Vc[lf[1]][N][lf[2]] if ((g == 'integrator' and 'refine' not in kw and i == N * M) or (g != 'integrator' and k == N)) else tr.Vc[lf[1]][kk][lf[2]]
         if op == 'x':
             return tr.X[k][lf[1]] if g != 'integrator' else tr.Xi[i][lf[1]]
+        if op == 'z' and cfg.method == 'DC' and 'refine' not in kw and g in ('integrator', 'control', 'control-'):
+            # algebraic variable at the start of an integrator step = its collocation polynomial (through the d root values) at tau=0;
+            # at the very last point: the last step's polynomial at tau=1
+            d_ = cfg.degree
+            tb_ = rco.Tables(d_, cfg.scheme)
+            from .c08 import lag_weights
+            npts_ = N * M
+            step_ = (i if g == 'integrator' else i * M)
+            last_ = step_ >= npts_
+            if last_:
+                step_ = npts_ - 1
+            w = lag_weights(tb_.tau, Fr(1) if last_ else Fr(0))
+            return sum((tr.Zr[step_ * d_ + j][lf[1]] * dom.const(w[j]) for j in range(1, d_)), tr.Zr[step_ * d_][lf[1]] * dom.const(w[0]))
         return None
     seen = set()
     for idx, (kind, name, gi, what) in enumerate(plan):
